@@ -31,6 +31,9 @@ FLOORS = {'quick': {'evaluations': 150000, 'nontrivial': 40000, 'counters': {'to
 YEARS = [1900, 1999, 2000, 2001, 2023, 2024, 2100]
 SPEC = wbspec.spec(wbspec.sheet('S1', {
     'A1': 2024, 'B1': 1, 'C1': 1, 'D1': '=DATE(A1,B1,C1)', 'E1': '=YEAR(D1)', 'F1': '=MONTH(D1)', 'G1': '=DAY(D1)',
+    # year, month and day arriving as whole floats (made by ROUND, by a division, by a sum with 0.0) and as a blank-selecting IF
+    'H1': '=DATE(ROUND(A1,0),B1/1,SUM(C1,0.0))', 'I1': '=DATE(A1*1.0,ROUND(B1,0),C1)', 'J1': '=DAY(DATE(A1,B1,ROUNDDOWN(C1,0)))',
+    # the same pair of dates with a time of day in one or both of them: DATEDIF counts calendar days, months and years
     'A2': dt.datetime(2024, 1, 1), 'B2': dt.datetime(2024, 2, 1),
     'C2': '=DATEDIF(A2,B2,"D")', 'D2': '=DATEDIF(A2,B2,"M")', 'E2': '=DATEDIF(A2,B2,"Y")', 'F2': '=DATEDIF(A2,B2,"YM")',
     'A3': dt.datetime(2024, 1, 31), 'B3': 1, 'C3': '=EDATE(A3,B3)', 'D3': '=EOMONTH(A3,B3)',
@@ -110,12 +113,18 @@ def run_date(shard, ctx):
                 if exp is None:
                     r.count('date_out_of_domain')
                     continue
-                outs = book.values(0, ['D1', 'E1', 'F1', 'G1'], [(0, 'A1', y), (0, 'B1', m), (0, 'C1', d)])
-                r.ev(4)
+                floats = (d % 5 == 0)
+                outs = book.values(0, ['D1', 'E1', 'F1', 'G1'] + (['H1', 'I1', 'J1'] if floats else []), [(0, 'A1', y), (0, 'B1', m), (0, 'C1', d)])
+                r.ev(len(outs))
                 bad = []
                 if not outcome_matches(outs[0], [exp]):
                     bad.append(('DATE', outs[0].brief(), exp))
-                for o, e, nme in zip(outs[1:], (exp.year, exp.month, exp.day), ('YEAR', 'MONTH', 'DAY')):
+                if floats:
+                    r.count('date_from_whole_floats', 3)
+                    for o, e, nme in zip(outs[4:], (exp, exp, exp.day), ('DATE(ROUND,/,SUM)', 'DATE(*1.0,ROUND,)', 'DAY(DATE(,,ROUNDDOWN))')):
+                        if not outcome_matches(o, [e]):
+                            bad.append((nme, o.brief(), e))
+                for o, e, nme in zip(outs[1:4], (exp.year, exp.month, exp.day), ('YEAR', 'MONTH', 'DAY')):
                     if not outcome_matches(o, [e]):
                         bad.append((nme, o.brief(), e))
                 if bad:
@@ -145,16 +154,22 @@ def run_datedif(shard, ctx):
             cur = [(d1, d1 + dt.timedelta(days=x)) for x in deltas]
         else:
             cur = pairs
-        for a, b in cur:
-            outs = book.values(0, ['C2', 'D2', 'E2', 'F2'], [(0, 'A2', a), (0, 'B2', b)])
+        for ci, (a, b) in enumerate(cur):
+            # every fifth pair carries a time of day (late start, early end and the other way round): DATEDIF looks at the calendar dates
+            ta, tb = a, b
+            if pairs is None and ci % 5 == 0:
+                ta = a + dt.timedelta(hours=rng.choice([0, 6, 18, 23]), minutes=rng.choice([0, 59]))
+                tb = b + dt.timedelta(hours=rng.choice([0, 1, 12, 23]), seconds=rng.choice([0, 59]))
+                r.count('datedif_pairs_with_a_time_of_day')
+            outs = book.values(0, ['C2', 'D2', 'E2', 'F2'], [(0, 'A2', ta), (0, 'B2', tb)])
             r.ev(4)
             bad = []
             for o, u in zip(outs, ('D', 'M', 'Y', 'YM')):
-                e = evalr.datedif(a, b, u)
+                e = evalr.datedif(dt.datetime(a.year, a.month, a.day), dt.datetime(b.year, b.month, b.day), u)
                 if not outcome_matches(o, [e]):
                     bad.append((u, o.brief(), e))
             if bad:
-                report(r, ID, None, {'fn': 'DATEDIF', 'start': a, 'end': b}, bad, None, monitor='calendar-closed-form')
+                report(r, ID, None, {'fn': 'DATEDIF', 'start': ta, 'end': tb}, bad, None, monitor='calendar-closed-form')
             if b.day < a.day or b.month < a.month:
                 nt += 1
     r.nontrivial_disjoint += nt
